@@ -227,6 +227,8 @@ pub fn build<Data: GarnishData>(parse_root: usize, parse_tree: Vec<ParseNode>, d
                 index
             }
         };
+        // where this root's own instructions start, its jump table entry points here
+        let root_start = data.get_instruction_len();
         let mut stack = vec![root_index];
 
         while let Some(node_index) = stack.pop() {
@@ -260,7 +262,12 @@ pub fn build<Data: GarnishData>(parse_root: usize, parse_tree: Vec<ParseNode>, d
             }
         }
 
-        let last_instruction = data.get_instruction_iter().last();
+        // an end instruction is only already present if this root emitted it, a root without instructions of its own still needs one
+        let last_instruction = if data.get_instruction_len() > root_start {
+            data.get_instruction_iter().last()
+        } else {
+            None
+        };
         let end_instructions = match nodes.get(root_index) {
             Some(Some(node)) => match &node.root_end_instruction {
                 Some(end_instruction) => end_instruction.clone(),
